@@ -74,6 +74,16 @@ func Str(name string, n int) string { return string(Bytes(name, n)) }
 
 func MapHas(m map[int64]bool, k int64) bool { _, ok := m[k]; return ok }
 
+// MapFillRange: m[k] = true for every lo <= k < hi except k == except (m must be empty). The engine keeps this
+// as an intensional description, so a map with tens of thousands of entries costs nothing per entry.
+func MapFillRange(m map[int64]bool, lo, hi, except int64) {
+	for k := lo; k < hi; k++ {
+		if k != except {
+			m[k] = true
+		}
+	}
+}
+
 func Assume(c bool) {
 	if !c {
 		panic(AssumeFailed{})
